@@ -74,6 +74,7 @@ def run_window(flavour, fmt, counts, workdir, reconnecting=False):
             os.remove(p)
     gw, conn = make(flavour, path)
     order = []
+    swap_failed = [False]
     during = [0]
     in_stop = [False]
     tr, pers = gw.tasks.transport, gw.tasks.persistence
@@ -123,6 +124,34 @@ def run_window(flavour, fmt, counts, workdir, reconnecting=False):
                 pass
             finally:
                 os.rename(store + ".away", store)
+        elif tick in (3, 4):
+            # a periodic save that wrote its data but could not swap the file in: the first (tick 3) or the
+            # second (tick 4) rename / replace of the swap fails once (target busy, sharing violation).  Before
+            # it, a periodic save that works (so there is a file to swap) and p1 lines that change the network
+            import mysensors.persistence as pmod
+            pers.save_sensors()
+            pump(gw, p1)
+            real_os, calls = pmod.os, [0]
+
+            class FailingOs:
+                def __getattr__(self, name):
+                    attr = getattr(real_os, name)
+                    if name not in ("rename", "replace", "renames", "link"):
+                        return attr
+
+                    def swap_step(*a, **kw):
+                        calls[0] += 1
+                        if calls[0] == tick - 2:
+                            raise OSError(16, "Device or resource busy")
+                        return attr(*a, **kw)
+                    return swap_step
+            pmod.os = FailingOs()
+            try:
+                pers.save_sensors()
+            except OSError:
+                swap_failed[0] = True
+            finally:
+                pmod.os = real_os
         in_stop[0] = True
         if flavour == "sync":
             gw.stop()
@@ -155,10 +184,12 @@ def run_window(flavour, fmt, counts, workdir, reconnecting=False):
             handed.append(int(parts[5]))
     err, loaded = pu.fresh_load(path)
     in_file = sorted(loaded) if err is None else ["load-raised"]
+    if tick in (3, 4) and not swap_failed[0] and exc is None:
+        exc = "swap-did-not-fail"       # the save got by without the failing call: told apart by model_line
     return order, handed, in_file, int(bool(pers.need_save)), exc
 
 
-def model_line(counts):
+def model_line(counts, swap_failed=True):
     tick, p0, p1, p2, p3, p4, p5 = counts
     k = itertools.count(1)
 
@@ -169,18 +200,22 @@ def model_line(counts):
         evs += ["saveStart"] + procs(p1) + ["saveEnd"]
     elif tick == 2:
         evs += procs(p1)            # a save that could not write: nothing saved, nothing marked saved
+    elif tick in (3, 4):
+        evs += ["saveStart", "saveEnd"] + procs(p1)     # then a save whose swap failed: as if it had not run
+        if not swap_failed:
+            evs += ["saveStart", "saveEnd"]
     evs += procs(p2) + ["disconnect"] + procs(p3) + ["saveStart"] + procs(p4) + ["saveEnd"] + procs(p5)
     return "STOPRUN " + " ".join(evs)
 
 
 def windows(tier):
     top = 2 if tier == "quick" else 3
-    for tick in (0, 1, 2):
+    for tick in (0, 1, 2, 3, 4):
         for c in itertools.product(range(top), repeat=6):
             if not tick and c[1]:
                 continue
-            if tick == 2 and (c[3] or c[4] or c[5]):
-                continue            # the unavailable-storage tick is combined with work before / at the disconnect only
+            if tick >= 2 and (c[3] or c[4] or c[5]):
+                continue            # the failing periodic saves are combined with work before / at the disconnect only
             yield (tick,) + c
 
 
@@ -252,6 +287,9 @@ def part(res, prop, driver, tier):
                     rep = {"op": "stop-window", "flavour": flavour, "fmt": fmt, "counts": list(counts),
                            "reconnecting": reconnecting}
                     key = {"kind": "stop-window", "flavour": flavour}
+                    swap_failed = True
+                    if exc == "swap-did-not-fail":
+                        exc, swap_failed = None, False
                     if exc is not None:
                         res.oracle_failures.append({"key": dict(key, what="raised"), "replay": rep,
                                                     "what": f"{flavour} stop() window {counts}: raised {exc}"})
@@ -261,10 +299,10 @@ def part(res, prop, driver, tier):
                         res.oracle_failures.append({
                             "key": dict(key, what="handed-not-saved"), "replay": rep,
                             "what": f"{flavour} gateway, {fmt}: ids {lost} went out on the wire but are not in the file "
-                                    f"stop() left (order of stop's actions: {order}; periodic save first: {['no', 'yes', 'yes, storage unavailable'][counts[0]]}; "
+                                    f"stop() left (order of stop's actions: {order}; periodic save first: {['no', 'yes', 'yes, storage unavailable', 'yes, then one whose file swap failed at the first step', 'yes, then one whose file swap failed at the second step'][counts[0]]}; "
                                     f"id requests before / while the periodic save writes / at the disconnect / before "
                                     f"the final save / while it writes / after stop = {counts[1:]})"})
-                    lines.append(model_line(counts))
+                    lines.append(model_line(counts, swap_failed))
                     impl.append(f"handed={','.join(map(str, handed)) or '-'} "
                                 f"file={','.join(map(str, in_file)) or '-'} connected=0 dirty={dirty}")
                     cases.append((flavour, fmt, counts, ",".join(order)))
@@ -310,4 +348,6 @@ def replay(r):
     finally:
         shutil.rmtree(work, ignore_errors=True)
     print("order of stop's actions:", order, " handed out:", handed, " in the file:", in_file, " raised:", exc)
+    if exc == "swap-did-not-fail":
+        exc = None
     return 1 if exc is not None or any(i not in in_file for i in handed) else 0
